@@ -264,7 +264,7 @@ class Built:
     pass
 
 
-def build_program(prog, *, domains=None, module=None, sigs=None, extra=None):
+def build_program(prog, *, domains=None, module=None, sigs=None, extra=None, make_domains=True):
     """Descriptor -> (Module, signals...). `domains`: {name: ClockDomain kwargs}."""
     env = prog["env"]
     dom = {int(k): v for k, v in prog["dom"].items()}
@@ -288,6 +288,8 @@ def build_program(prog, *, domains=None, module=None, sigs=None, extra=None):
     b.cds = {}
     used = sorted({d for d in dom.values() if d != "comb"} | {f["dom"] for f in prog.get("fsms", [])})
     for dn in used:
+        if not make_domains:
+            continue              # the caller defines the domains elsewhere (e.g. at the top of a hierarchy)
         kw = (domains or {}).get(dn, {})
         cd = ClockDomain(dn, **kw)
         m.domains += cd
